@@ -21,6 +21,7 @@ import json
 import os
 import random
 import re
+import signal
 import sys
 import time
 import traceback
@@ -42,6 +43,27 @@ import exo.stdlib.scheduling as S
 NULL = SrcInfo("c17", 0)
 
 
+class Timeout(Exception):
+    pass
+
+
+def _alarm(sig, frm):
+    raise Timeout()
+
+
+signal.signal(signal.SIGALRM, _alarm)
+
+
+def with_timeout(secs, fn):
+    """run fn() under a wall-clock limit (the reference interpreter computes with exact rationals; programs that
+    multiply a cell by itself in a loop nest make it practically diverge)"""
+    signal.setitimer(signal.ITIMER_REAL, secs)
+    try:
+        return fn()
+    finally:
+        signal.setitimer(signal.ITIMER_REAL, 0)
+
+
 class Unsupported(Exception):
     pass
 
@@ -53,8 +75,19 @@ def q(s: str) -> str:
     return '"' + s.replace('"', '""') + '"'
 
 
+_symno: dict = {}
+
+
 def gsym(s: Sym) -> str:
-    return "(mkSym %s %d)" % (q(str(s)), s._id)
+    """symbols are numbered by first occurrence within one exported procedure (identity is all that matters;
+    small numbers keep the unary nat of the model cheap); reset_syms() starts a new numbering"""
+    if s not in _symno:
+        _symno[s] = len(_symno) + 1
+    return "(mkSym %s %d)" % (q(str(s)), _symno[s])
+
+
+def reset_syms():
+    _symno.clear()
 
 
 BINOPS = {"or": "OpOr", "and": "OpAnd", "<": "OpLt", ">": "OpGt", "<=": "OpLe", ">=": "OpGe", "==": "OpEq",
@@ -413,7 +446,7 @@ class StressGen:
         par = lambda s: "(%s)" % s if rng.random() < 0.6 else s
         if r < 0.65:
             return "%s and %s" % (par(a), par(b))
-        if r < 0.9:
+        if r < 0.97:
             return "%s or %s" % (par(a), par(b))
         return "(%s) == (%s)" % (a, b)
 
@@ -453,7 +486,7 @@ class StressGen:
                 lhs = b if ext is None else "%s[%s]" % (b, rng.choice(ivs) if ivs and rng.random() < 0.7 else str(rng.randrange(ext)))
                 out.append("%s%s %s %s" % (ind, lhs, "=" if k == "assign" else "+=", self.data(bufs, env, 3)))
             elif k == "for":
-                nm = rng.choice(["i", "j", "i_1", "i", "j_1", "ii"])
+                nm = rng.choice(self.iter_names)
                 ext = rng.choice([2, 3, 4])
                 self.small.add(nm) if ext <= 2 else None
                 out.append("%sfor %s in %s(0, %d):" % (ind, nm, "seq", ext))
@@ -470,7 +503,7 @@ class StressGen:
                     out.append(ind + "else:")
                     out += self.block(depth - 1, env, bufs, bools, ind + "    ", budget) or [ind + "    pass"]
             else:
-                nm = rng.choice(NAME_POOL[:6])
+                nm = rng.choice(self.alloc_names)
                 if rng.random() < 0.5:
                     out.append("%s%s: R" % (ind, nm))
                     out.append("%s%s = %s" % (ind, nm, self.data(bufs, env, 1)))
@@ -485,6 +518,15 @@ class StressGen:
     def module(self, name="foo"):
         rng = self.rng
         self.small = set()
+        if rng.random() < 0.45:
+            # "ladder": many symbols of ONE name family in one scope, so that generated names (b_1, b_1_1, b_2)
+            # meet symbols that are literally called so
+            b = rng.choice(["x", "t", "u"])
+            self.alloc_names = [b, b, b, b + "_1", b + "_1", b + "_2", b + "_1_1"]
+            self.iter_names = ["i", "i", "i_1", "i_1", "i_2", "i_1_1"]
+        else:
+            self.alloc_names = NAME_POOL[:6]
+            self.iter_names = ["i", "j", "i_1", "i", "j_1", "ii"]
         parts = [progen.HEADER]
         bools = []
         if rng.random() < 0.35:
@@ -503,6 +545,53 @@ class StressGen:
         body = self.block(3, ["n"] if rng.random() < 0.5 else [], bufs, bools, "    ", [rng.randint(4, 9)])
         parts.append("@proc\ndef %s(%s):\n%s\n" % (name, ", ".join(sig), "\n".join(body or ["    pass"])))
         return "\n".join(parts)
+
+
+def ladder_module(rng, name="foo"):
+    """many declarations of ONE name family (b, b, b_1, b_2, b_1_1 ...) in nested / sibling scopes, each one used:
+    the shape on which a printer that forgets a name it generated shows two symbols under one name"""
+    b = rng.choice(["x", "t", "i", "acc"])
+    fam = [b, b, b, b + "_1", b + "_1", b + "_2", b + "_1_1", b + "_1_2"]
+    args = ["n: size", "y: R[8]"]
+    scalars, idxs = [], []
+    if rng.random() < 0.4:
+        a = rng.choice(fam)
+        args.append("%s: R" % a)
+        scalars.append(a)
+    lines, ind = [], "    "
+    k = 0
+    stack = []
+    for _ in range(rng.randint(3, 8)):
+        nm = rng.choice(fam)
+        r = rng.random()
+        k += 1
+        if r < 0.55:
+            lines.append("%s%s: R" % (ind, nm))
+            lines.append("%s%s = %d.0" % (ind, nm, k))
+            idxs = [v for v in idxs if v != nm]
+            scalars = [v for v in scalars if v != nm] + [nm]
+        elif r < 0.8:
+            lines.append("%sfor %s in seq(0, 2):" % (ind, nm))
+            ind += "    "
+            stack.append((list(scalars), list(idxs)))
+            scalars = [v for v in scalars if v != nm]
+            idxs = [v for v in idxs if v != nm] + [nm]
+        elif r < 0.9 and len(ind) > 4:
+            lines.append("%sy[%d] += %s" % (ind, k % 8, " + ".join(scalars[-2:]) if scalars else "1.0"))
+            ind = ind[:-4]
+            scalars, idxs = stack.pop()
+        else:
+            lines.append("%sif n > %d:" % (ind, k))
+            ind += "    "
+            stack.append((list(scalars), list(idxs)))
+        use = []
+        if scalars:
+            use.append(rng.choice(scalars))
+        if len(scalars) > 1:
+            use.append(scalars[-1])
+        ix = rng.choice(idxs) if idxs else str(k % 8)
+        lines.append("%sy[%s] += %s" % (ind, ix, " * ".join(use) if use else "1.0"))
+    return progen.HEADER + "\n@proc\ndef %s(%s):\n%s\n" % (name, ", ".join(args), "\n".join(lines))
 
 
 FAVOURED = {"unroll_loop": 8, "cut_loop": 5, "divide_loop": 5, "inline": 8, "stage_mem": 5, "bind_expr": 5,
@@ -560,7 +649,10 @@ def schedule(p, rng, cfgs, nops):
     applied = []
     for _ in range(nops):
         try:
-            cands = sched.candidates(p, rng, cfgs)
+            # delete_buffer is left out: it removes the allocation of a buffer that is written and then read
+            # (Check_IsDeadAfter only asks whether the OLD value is dead), which leaves an ill-formed procedure --
+            # a scheduling defect reported separately, not a matter of printing
+            cands = [c for c in sched.candidates(p, rng, cfgs) if c[0] != "delete_buffer"]
             cands += colliding_name_ops(p, rng)
         except Exception as e:  # enumeration itself failed: keep what we have
             break
@@ -672,6 +764,77 @@ def scope_objects(ir, scope, clash):
     walk(ir.body)
 
 
+def unbound_uses(ir):
+    """symbols used where no argument / allocation / window statement / loop binds them (an ill-formed procedure:
+    nothing the printer could do about it)"""
+    bad = []
+
+    def ex(e, env):
+        if isinstance(e, (LoopIR.Read, LoopIR.WindowExpr, LoopIR.StrideExpr)):
+            if e.name not in env:
+                bad.append(str(e.name))
+        if isinstance(e, LoopIR.Read):
+            for i in e.idx:
+                ex(i, env)
+        elif isinstance(e, LoopIR.BinOp):
+            ex(e.lhs, env)
+            ex(e.rhs, env)
+        elif isinstance(e, LoopIR.USub):
+            ex(e.arg, env)
+        elif isinstance(e, LoopIR.Extern):
+            for a in e.args:
+                ex(a, env)
+        elif isinstance(e, LoopIR.WindowExpr):
+            for w in e.idx:
+                if isinstance(w, LoopIR.Interval):
+                    ex(w.lo, env)
+                    ex(w.hi, env)
+                else:
+                    ex(w.pt, env)
+
+    def walk(ss, env):
+        env = set(env)
+        for st in ss:
+            if isinstance(st, (LoopIR.Assign, LoopIR.Reduce)):
+                if st.name not in env:
+                    bad.append(str(st.name))
+                for i in st.idx:
+                    ex(i, env)
+                ex(st.rhs, env)
+            elif isinstance(st, LoopIR.WriteConfig):
+                ex(st.rhs, env)
+            elif isinstance(st, LoopIR.WindowStmt):
+                ex(st.rhs, env)
+                env.add(st.name)
+            elif isinstance(st, LoopIR.Alloc):
+                if isinstance(st.type, T.Tensor):
+                    for r in st.type.hi:
+                        ex(r, env)
+                env.add(st.name)
+            elif isinstance(st, LoopIR.Call):
+                for a in st.args:
+                    ex(a, env)
+            elif isinstance(st, LoopIR.If):
+                ex(st.cond, env)
+                walk(st.body, env)
+                walk(st.orelse, env)
+            elif isinstance(st, LoopIR.For):
+                ex(st.lo, env)
+                ex(st.hi, env)
+                walk(st.body, env | {st.iter})
+
+    env = set()
+    for a in ir.args:
+        if isinstance(a.type, T.Tensor):
+            for r in a.type.hi:
+                ex(r, env)
+        env.add(a.name)
+    for e in ir.preds:
+        ex(e, env)
+    walk(ir.body, env)
+    return bad
+
+
 CMP = ("<", ">", "<=", ">=", "==")
 
 
@@ -771,12 +934,19 @@ def deco(ir):
 
 
 def norm_msg(cls, msg):
-    """a stable identifier of a rejection: error class + message without positions and names"""
-    m = msg.split("\n")[-1] if cls == "TypeError" and "\n" in msg else msg
-    m = re.sub(r"^[^ ]*:\d+(:\d+)?: ", "", m.strip())
-    m = re.sub(r"'[^']*'", "'_'", m)
-    m = re.sub(r"\d+", "N", m)
-    return re.sub(r"[^A-Za-z_' =<>!+*/%-]+", " ", m).strip().replace(" ", "_")[:70]
+    """a stable identifier of a rejection: the first located error message, without positions, names, numbers and
+    without the expression it talks about (first six words)"""
+    m = None
+    for line in msg.split("\n"):
+        mm = re.match(r"^\S*:\d+(:\d+)?: (.*)$", line.strip())
+        if mm:
+            m = mm.group(2)
+            break
+    if m is None:
+        m = msg.strip().split("\n")[0]
+    m = re.sub(r"'[^']*'", "_", m)
+    words = re.findall(r"[A-Za-z]+", m)
+    return "_".join(words[:6])[:70]
 
 
 BOOL_MEM = re.compile(r"(\b[A-Za-z_]\w*: bool) @ \w+")
@@ -893,7 +1063,12 @@ def main():
             bump("stopped_on_time_budget")
             break
         uid = "q%d" % k
-        if rng.random() < 0.45:
+        r_kind = rng.random()
+        if r_kind < 0.2:
+            gen_kind = "ladder"
+            src = ladder_module(rng)
+            cfg_name = None
+        elif r_kind < 0.55:
             gen_kind = "stress"
             g = StressGen(rng, uid)
             src = g.module()
@@ -914,7 +1089,8 @@ def main():
         variants = [(p0, [])]
         for _ in range(2):
             try:
-                p1, applied = schedule(p0, rng, cfgs, rng.randint(1, 3))
+                nops = rng.randint(1, 3)
+                p1, applied = with_timeout(30, lambda: schedule(p0, rng, cfgs, nops))
             except Exception as e:
                 bump("schedule_crash")
                 continue
@@ -924,6 +1100,7 @@ def main():
             pid += 1
             ir = p._loopir_proc
             try:
+                reset_syms()
                 lines, ops, names, problems = observe_print(ir)
                 text = str(p)
                 rec = {"t": "proc", "id": pid, "gen": gen_kind, "applied": applied, "coq": gproc(ir), "ops": gops(ops),
@@ -954,10 +1131,16 @@ def main():
                       "replay": dict(replay, detail=detail)})
             if not do_search:
                 continue
+            ub = unbound_uses(ir)
+            if ub:
+                bump("illformed_procedures_skipped")
+                emit({"t": "illformed", "why": "uses unbound symbol(s) %s" % sorted(set(ub)), "module_src": src,
+                      "ops_applied": applied, "printed": text})
+                continue
             # (ii) round trip through the real front end + reference interpreter
             bump("roundtrip_tried")
             try:
-                rt = round_trip(p, text)
+                rt = with_timeout(30, lambda: round_trip(p, text))
                 repaired = None
                 if rt["status"] == "reject" and "size types should not be annotated" in (rt["msg"] or "") and BOOL_MEM.search(text):
                     emit({"t": "finding", "key": "print:roundtrip-reject:ParseError:bool-argument-printed-with-memory",
@@ -987,12 +1170,22 @@ def main():
                 if t2 != text:
                     bump("roundtrip_text_differs")
                     key = "print:comparison-chain:text" if chain else "print:roundtrip-text:%s" % first_diff(text, t2)
+                    if not chain and re.sub(r"-0\b(?!\.)", "0", text) == t2:
+                        key = "print:roundtrip-text:minus-zero"
                     emit({"t": "finding", "key": key,
                           "what": "printing the re-parsed procedure gives a different text",
                           "replay": dict(replay, reprinted=t2)})
                 for a, b, direction in ((p, p2, "orig->reparsed"), (p2, p, "reparsed->orig")):
                     sc.reset()
-                    res = sc.compare(a, b, op="print-roundtrip", n_inputs=4)
+                    try:
+                        res = with_timeout(3, lambda: sc.compare(a, b, op="print-roundtrip", n_inputs=4))
+                    except Timeout:
+                        bump("roundtrip_interp_timeout")
+                        sc.interp.p.kill()
+                        import export
+                        sc.interp = export.Interp()
+                        sc.reset()
+                        break
                     if res is None:
                         bump("roundtrip_behaviour_equal")
                     elif res["kind"] == "unsupported":
@@ -1021,10 +1214,23 @@ def main():
 
 
 def first_diff(a, b):
+    """kind of the first line that differs (keeps the key of a finding independent of the program)"""
     la, lb = a.split("\n"), b.split("\n")
     for x, y in zip(la, lb):
         if x != y:
-            return re.sub(r"[^A-Za-z_=<>+*/%()-]+", "_", x.strip())[:40]
+            t = x.strip()
+            for kw in ("def", "if", "for", "assert", "else"):
+                if t.startswith(kw + " ") or t.startswith(kw + ":"):
+                    return kw
+            if re.match(r"^\w+: ", t):
+                return "alloc"
+            if re.match(r"^\w+\(", t):
+                return "call"
+            if "+=" in t:
+                return "reduce"
+            if "=" in t:
+                return "assign"
+            return "line"
     return "length"
 
 
